@@ -136,6 +136,11 @@ impl StateMachine<'_> {
                 }
             }
 
+            // The removed/added lines which ended the previous hunk are complete: show them
+            // now, not together with the first line of this hunk.
+            self.painter.paint_buffered_minus_and_plus_lines();
+            self.painter.emit()?;
+
             self.state = HunkHeader(
                 diff_type,
                 parsed_hunk_header,
